@@ -42,6 +42,7 @@ type Contract struct {
 	Safe     bool
 	Modular  bool // never inline at call sites even if it has no ensures
 	Witness  map[string]string
+	Unordered map[int]string // map-range ordinal -> the only entry point from which the function may be reached
 	Bound    bool
 	Terminates bool
 	Assigns  []string
@@ -57,7 +58,7 @@ type SpecFunc struct {
 	Text   string
 }
 
-var kwRe = regexp.MustCompile(`^(func|spec|requires|ensures|decreases|loop|safe|modular|terminates|witness|end)\b`)
+var kwRe = regexp.MustCompile(`^(func|spec|requires|ensures|decreases|loop|safe|modular|terminates|witness|unordered|end)\b`)
 
 func (e *Engine) loadContracts() error {
 	e.contracts = map[string]*Contract{}
@@ -205,6 +206,15 @@ func (e *Engine) parseContractFile(file, pkgPath, data string) error {
 				cur.LoopDecr[n] = c
 			} else {
 				return fmt.Errorf("%s:%d: bad loop clause %q", file, l.line, kind)
+			}
+		case "unordered":
+			// unordered <map-range ordinal> <entry point>: the property allows an unordered result there
+			if len(fields) >= 3 {
+				n, _ := strconv.Atoi(fields[1])
+				if cur.Unordered == nil {
+					cur.Unordered = map[int]string{}
+				}
+				cur.Unordered[n] = strings.Join(fields[2:], " ")
 			}
 		case "safe":
 			cur.Safe = true
@@ -430,9 +440,10 @@ func (env *SpecEnv) evalBool(e ast.Expr) string {
 func (env *SpecEnv) inState(fn func() Val) Val {
 	f := env.f
 	saved := f.cur
+	savedReach := f.reach[f.curB]
 	f.cur = env.st.clone()
 	f.vc.pure++
-	defer func() { f.cur = saved; f.vc.pure-- }()
+	defer func() { f.cur = saved; f.vc.pure--; f.reach[f.curB] = savedReach }()
 	return fn()
 }
 
@@ -805,6 +816,12 @@ func (env *SpecEnv) call(x *ast.CallExpr) Val {
 			specErr("unknown type %q", ts)
 		}
 		return Val{t: eq(app("i_tag", v.t), fmt.Sprint(vc.te.tagOf(t))), typ: boolT}
+	case "selfcall": // the function under verification applied to other arguments (pure functions only)
+		var args []Val
+		for _, a := range x.Args {
+			args = append(args, env.rv(env.eval(a)))
+		}
+		return env.pureCallBody(vc.top, args)
 	case "offof": // offset of a slice inside its backing array
 		v := env.rv(env.eval(x.Args[0]))
 		return Val{t: app("s_off", v.t), typ: intT}
